@@ -129,4 +129,53 @@ theorem nothing_executed (E : Env) (help : HelpFn) (P : Parser) (argv : List Byt
     ∀ ev ∈ (parseArgs E help P argv).log, C09.Event.isRun ev = false :=
   C09.no_run_on_parse_error E help P argv (Or.inl h)
 
+
+/-! ### End to end: what a successful parse guarantees -/
+
+/-- **A parse succeeds only if every required option was supplied and every count constraint is
+    met — for EVERY argument vector, declaration and option set.**  Whenever the whole parse
+    phase (argument loop, defaults phase, required check) ends without an error, the state it
+    ends in has no required option of the parser or of a command of the active chain that is
+    unset (by any source), and no pending positional argument with an unmet constraint: there
+    is no way through `ParseArgs` around the required check. -/
+theorem successful_parse_has_every_required_item (E : Env) (help : HelpFn) (P : Parser) (argv : List Bytes)
+    (hok : (parsePhase E help P argv).err = none) :
+    let fin := parsePhase E help P argv
+    (∀ ci ∈ fin.P.activeChain, ∀ r ∈ (fin.P.cmd ci).orefs ci, (fin.P.opt r).required = true → (fin.P.opt r).isSet = true) ∧
+    unmet fin = [] := by
+  simp only
+  unfold parsePhase at hok ⊢
+  simp only at hok ⊢
+  split at hok
+  · next hloop =>
+    simp only [hloop, if_true]
+    generalize clearDefaultsAll E help _ _ = X at hok ⊢
+    rw [checkRequired_eq] at hok ⊢
+    by_cases hm : missing X = []
+    · simp only [hm, if_true] at hok ⊢
+      have hu : unmet X = [] := by
+        cases hu : unmet X with
+        | nil => rfl
+        | cons a t =>
+          rw [hu] at hok
+          cases t <;> simp at hok
+      simp only [hu]
+      refine ⟨?_, trivial⟩
+      intro ci hci r hr hreq
+      cases hset : (X.P.opt r).isSet with
+      | true => rfl
+      | false =>
+        exfalso
+        have : r ∈ missing X := by
+          unfold missing
+          simp only [List.mem_filter, List.mem_flatMap]
+          exact ⟨⟨ci, hci, hr⟩, by simp [hset, hreq]⟩
+        rw [hm] at this
+        cases this
+    · simp only [hm, if_false] at hok
+      split at hok <;> simp at hok
+  · next hloop =>
+    -- the loop itself ended with an error: the phase's error is that error
+    exact absurd (by simp [hok]) hloop
+
 end GoFlags.C06
